@@ -16,7 +16,8 @@ def Op.target : Op → Nat
   | .appendS v _ | .appendP v _ | .appendC v _ | .prependS v _ | .prependP v _ | .replaceC v _ _
   | .lower v | .upper v | .substr v _ _ _ | .trim v _ | .tokenC v _ _ _ | .tokenS v _ _ _ | .join v _ _
   | .replaceS v _ _ | .replaceL v _ _ | .printf v _ | .plusEqS v _ | .plusEqC v _ | .plus v _ _ | .plusLit v _ _ _
-  | .fromCStr v _ | .fromCStrN v _ | .fromBool v _ | .fromD v _ | .fromU v _ | .fromPrintf v _ => v
+  | .fromCStr v _ | .fromCStrN v _ | .fromBool v _ | .fromD v _ | .fromU v _ | .fromPrintf v _ | .printfO v _
+  | .fromOut v _ => v
 
 namespace Spec
 
@@ -113,6 +114,8 @@ def newVal (regs : Nat → List Nat) (σ : Nat → List Byte) : Op → Option (L
   | .fromD _ x => some ((render [.d x]).map some)
   | .fromU _ x => some ((render [.u x]).map some)
   | .fromPrintf _ f => some ((render f).map some)
+  | .printfO _ out => some (out.map some)
+  | .fromOut _ out => some (out.map some)
 
 def step (regs : Nat → List Nat) (σ : Nat → List Byte) (op : Op) : Option (Nat → List Byte) :=
   (newVal regs σ op).map (fun val => upd σ op.target val)
